@@ -1,9 +1,9 @@
-\* thorough: 2 threads x 2 requests per epoch, one Reset, plain and aligned requests
+\* thorough: 2 threads x 2 requests per epoch, one Reset
 SPECIFICATION Spec
 CONSTANTS
   Threads = {t1, t2}
   Sizes = {1, 4, 5, 9}
-  Kinds = {"plain", "aligned"}
+  Kinds = {"plain"}
   C0 = 4
   MaxAlloc = 32
   MaxChunks = 12
@@ -13,7 +13,7 @@ CONSTANTS
   MaxTrims = 0
   PosBase = 1024
   AlignM1 = 7
-  BaseMods = {0, 3}
+  BaseMods = {0}
   FixTrimKeepFirst = FALSE
   TrackReplay = FALSE
 SYMMETRY Symm
